@@ -14,14 +14,26 @@ Modelling notes
     `False`.  Such entries are invisible to every reader except through the *order* in which the
     saved ranges are listed, which is unobservable for pairwise disjoint rectangles; the model's
     `get` does not insert.  Assigning an existing key keeps its position (`MMap.set`).
-  * New cells created by `add_row` / `add_column` / auto-extension call
-    `_set_merge(map.get((row, col)))` for the position they are created at.  The model gives
-    them the constant payload `emptyCell` (no merge entry), which is what the code does whenever
-    the new positions lie outside every merged rectangle.  Structural edits before / inside a
-    merged rectangle are a known defect of the library (the map is not shifted): the check does
-    not run the model past such an edit.
+  * `Table.add_row` / `add_column` / `delete_row` / `delete_column` end with `Table._move_merges`
+    (fixes/C12-merge-map-shift.patch): unless every merged rectangle ends before the edit, the map is
+    cleared, every cell is un-merged (`MergedCell` -> empty cell, every other cell `_set_merge(None)`)
+    and the rectangles are merged again where their cells are now (`moveMerges`, `unmerge`, `remerge`,
+    `shiftRect`).  New cells created by `add_row` / `add_column` / auto-extension call
+    `_set_merge(map.get((row, col)))` for the position they are created at, and the default fill's
+    `write` does the same; both read the map *before* `_move_merges`.  The model gives these cells the
+    payload of a position without a merge entry (`emptyCell`, `valCell`): that is what the code computes
+    when every rectangle ends before the edit (the early `return`), and in the other case the three
+    merge attributes are overwritten by `_set_merge(None)` before anything can observe them (class and
+    value are the same either way).  `mstepPinned` keeps the edits without `_move_merges` (the pinned
+    behaviour) for the counter-example in Props/C12.lean.
+  * `_move_merges` hands the moved rectangle to `merge_cells` as `"<A1>:<A1>"` text; that
+    `xl_cell_to_rowcol (xl_rowcol_to_cell r c) = (r, c)` is C10's; the model passes the coordinates.
   * `merge_cells` takes the range in A1 notation; the parsing is C10's `cellToRowCol`, the model
     takes the four parsed coordinates.
+  * `recalculate_merged_cells` also removes the table's merge-owner range records from the formula-owner
+    archives (fixes/C12-stale-merge-owner-records.patch).  Documents created by the library have none;
+    the model's `reload` reads the merge region map only (tables loaded from documents written by
+    Numbers are covered by the check's fixture oracles, not by the model).
 Core Lean only.
 -/
 import NumbersModel.Model.Grid
@@ -78,6 +90,13 @@ def emptyCell : MCell := setMerge none (rawCell 0)
 /-- a written / default-filled cell at a position without a merge entry. -/
 def valCell (v : Nat) : MCell := setMerge none (rawCell v)
 
+/-- `(row_start, col_start, row_end, col_end)`. -/
+abbrev Rct := Int × Int × Int × Int
+
+/-- the rectangle an anchor entry `((row, col), (rows, cols))` stands for:
+    `[row, col, row + num_rows - 1, col + num_cols - 1]`. -/
+def rectOf (a : Key × (Int × Int)) : Rct := (a.1.1, a.1.2, a.1.1 + a.2.1 - 1, a.1.2 + a.2.2 - 1)
+
 structure MState where
   grid : Grid.State MCell
   mmap : MMap
@@ -90,8 +109,16 @@ def mwrite (s : MState) (row col : Int) (v : Nat) : PyM MState := do
   let g ← Grid.write emptyCell s.grid row col (setMerge (s.mmap.get (row, col)) (rawCell v))
   pure { s with grid := g }
 
-/-- the structural edits (new cells: see the modelling notes). -/
-def mstep (s : MState) (op : Grid.Op Nat) : PyM MState :=
+/-- the anchors of the map, in dict order: `MergeCells.merge_cells()` with their sizes. -/
+def anchorsOf : MMap → List (Key × (Int × Int))
+  | [] => []
+  | (k, .anchor h w) :: rest => (k, (h, w)) :: anchorsOf rest
+  | (_, .ref ..) :: rest => anchorsOf rest
+
+/-- the edits without `_move_merges`: the grid changes, the merge map stays (the library before
+    fixes/C12-merge-map-shift.patch).  `mstep` runs `moveMerges` after it; Props/C12.lean keeps the
+    counter-example for the unrepaired behaviour. -/
+def mstepPinned (s : MState) (op : Grid.Op Nat) : PyM MState :=
   match op with
   | .write r c v => mwrite s r c v
   | .addRow n st d => do
@@ -101,6 +128,50 @@ def mstep (s : MState) (op : Grid.Op Nat) : PyM MState :=
   | .delRow n st => do let g ← Grid.delRow s.grid n st; pure { s with grid := g }
   | .delCol n st => do let g ← Grid.delCol s.grid n st; pure { s with grid := g }
 
+/-! ### `Table._move_merges` (fixes/C12-merge-map-shift.patch) -/
+
+/-- `(rect[axis], rect[axis + 2])` after the assignments in the loop body of `_move_merges`. -/
+def shiftSpan (start count first last : Int) : Int × Int :=
+  if count > 0 then
+    (if start ≤ first then first + count else first, if start ≤ last then last + count else last)
+  else
+    (if start ≤ first then max (first + count) start else first,
+     if start ≤ last then max (last + count) (start - 1) else last)
+
+/-- the body of the `for rect in rects` loop up to the `continue`: where the rectangle is after `count`
+    rows (`rows = true`: `axis == 0`) or columns were inserted at `start` (`count > 0`) or `-count` of
+    them deleted from `start` on; `none` = `continue` (deleted, or reduced to a single cell).
+    ```
+    (first, last) = (rect[axis], rect[axis + 2])
+    if count > 0:
+        rect[axis] = first + count if start <= first else first
+        rect[axis + 2] = last + count if start <= last else last
+    else:
+        rect[axis] = max(first + count, start) if start <= first else first
+        rect[axis + 2] = max(last + count, start - 1) if start <= last else last
+    shrunk = rect[axis + 2] - rect[axis] < last - first
+    if rect[axis] > rect[axis + 2] or (shrunk and rect[:2] == rect[2:]): continue
+    ``` -/
+def shiftRect (rows : Bool) (start count : Int) (q : Rct) : Option Rct :=
+  let first := if rows then q.1 else q.2.1
+  let last := if rows then q.2.2.1 else q.2.2.2
+  let fl := shiftSpan start count first last
+  let q' : Rct := if rows then (fl.1, q.2.1, fl.2, q.2.2.2) else (q.1, fl.1, q.2.2.1, fl.2)
+  if fl.1 > fl.2 ∨ (fl.2 - fl.1 < last - first ∧ q'.1 = q'.2.2.1 ∧ q'.2.1 = q'.2.2.2) then none
+  else some q'
+
+/-- the un-merge sweep of `_move_merges`:
+    ```
+    for row, cells in enumerate(self._data):
+        for col, cell in enumerate(cells):
+            if isinstance(cell, MergedCell): cells[col] = Cell._empty_cell(self._table_id, row, col, self._model)
+            else: cell._set_merge(None)
+    ```
+    (the map is empty at this point, so the new empty cell has no merge entry). -/
+def unmerge (d : List (List (CellM MCell))) : List (List (CellM MCell)) :=
+  d.mapIdx (fun row cells => cells.mapIdx (fun col cell =>
+    if cell.val.ph then (⟨(row : Int), (col : Int), emptyCell⟩ : CellM MCell)
+    else { cell with val := setMerge none cell.val }))
 /-- one iteration of the placeholder loops of `Table.merge_cells`:
     ```
     if (row, col) == (row_start, col_start): continue          # fixes/C12-merge-placeholders.patch
@@ -140,6 +211,50 @@ def mergeList (s : MState) : List (Int × Int × Int × Int) → PyM MState
     let s' ← mergeOne s r0 c0 r1 c1
     mergeList s' rest
 
+/-- the `for rect in rects` loop of `_move_merges`: the moved rectangle is merged again
+    (`self.merge_cells("<A1>:<A1>")`) unless it is skipped. -/
+def remerge (rows : Bool) (start count : Int) (s : MState) : List Rct → PyM MState
+  | [] => .ok s
+  | q :: rest =>
+    match shiftRect rows start count q with
+    | none => remerge rows start count s rest
+    | some (r0, c0, r1, c1) => do
+      let s' ← mergeOne s r0 c0 r1 c1
+      remerge rows start count s' rest
+
+/-- `Table._move_merges(axis, start, count)`: nothing to do if the rows / columns were appended
+    (`start + count == (self.num_rows, self.num_cols)[axis]`, the dimensions being those after the
+    edit) or if every merged rectangle ends before `start` (in particular: no merges); otherwise clear
+    the map, un-merge every cell, merge the moved rectangles again. -/
+def moveMerges (s : MState) (rows : Bool) (start count : Int) : PyM MState :=
+  if count > 0 ∧ start + count = (if rows then s.grid.numRows else s.grid.numCols) then .ok s
+  else
+    let rects := (anchorsOf s.mmap).map rectOf
+    if rects.all (fun q => decide ((if rows then q.2.2.1 else q.2.2.2) < start)) then .ok s
+    else remerge rows start count { grid := { s.grid with data := unmerge s.grid.data }, mmap := [] } rects
+
+/-- `start_row if start_row is not None else <default>`. -/
+def startOrI (start : Option Int) (dflt : Int) : Int := match start with | some st => st | none => dflt
+
+/-- `Table.write` / `add_row` / `add_column` / `delete_row` / `delete_column` with the merge
+    bookkeeping: the structural edits end with `_move_merges` (for insertions `start` defaults to the
+    old dimension, for deletions to the new one). -/
+def mstep (s : MState) (op : Grid.Op Nat) : PyM MState :=
+  match op with
+  | .write r c v => mwrite s r c v
+  | .addRow n st _ => do
+    let s1 ← mstepPinned s op
+    moveMerges s1 true (startOrI st s.grid.numRows) n
+  | .addCol n st _ => do
+    let s1 ← mstepPinned s op
+    moveMerges s1 false (startOrI st s.grid.numCols) n
+  | .delRow n st => do
+    let s1 ← mstepPinned s op
+    moveMerges s1 true (startOrI st s1.grid.numRows) (-n)
+  | .delCol n st => do
+    let s1 ← mstepPinned s op
+    moveMerges s1 false (startOrI st s1.grid.numCols) (-n)
+
 /-- `Table.merge_ranges`, as rectangles in row-major order of their anchors (the library returns
     the sorted set of their `xl_range` strings). -/
 def mergeRanges (s : MState) : PyM (List (Int × Int × Int × Int)) :=
@@ -160,12 +275,6 @@ def pack32 (hi lo : Int) : PyM Nat :=
   else
     let v := (hi.toNat <<< 16) ||| lo.toNat
     if v ≥ 2 ^ 32 then .error .ValueError else .ok v
-
-/-- the anchors of the map, in dict order: `MergeCells.merge_cells()` with their sizes. -/
-def anchorsOf : MMap → List (Key × (Int × Int))
-  | [] => []
-  | (k, .anchor h w) :: rest => (k, (h, w)) :: anchorsOf rest
-  | (_, .ref ..) :: rest => anchorsOf rest
 
 /-- `recalculate_merged_cells`: `CellRange(origin = col << 16 | row, size = ncols << 16 | nrows)`. -/
 def packRanges : List (Key × (Int × Int)) → PyM (List (Nat × Nat))
